@@ -164,18 +164,20 @@ func VerifHarness_NewPositionRange() {
 				spelled = false
 			}
 		}
-		// genuine defect (notes/C02.md): a value that the source text does not spell at the node's position (any
-		// double-quoted scalar with an escape sequence) can give an EMPTY position list; every diagnostic built on it
-		// then violates I1 and diags.InjectDiagnostics panics with "slices.Max: empty list"
-		verifSig("C02-position-empty-value-not-in-source", !spelled)
 	}
 	got := NewPositionRange(lines, &node, minCol)
 	verifReach("end")
-	verifAssert(len(got) > 0, "I1: the position list of a node is not empty")
 	for _, pr := range got {
 		verifAssert(verifAnd(pr.Line >= 1, pr.Line <= nlines), "I2: position lines are lines of the file")
 		verifAssert(verifAnd(pr.FirstColumn >= 1, pr.FirstColumn <= pr.LastColumn), "I2: position columns are ordered and 1-based")
 	}
+	// genuine defect (notes/C02.md): a value that the source text does not spell at the node's position (any
+	// double-quoted scalar with an escape sequence) can give an EMPTY position list; every diagnostic built on it
+	// then violates I1 and diags.InjectDiagnostics panics with "slices.Max: empty list".
+	// The signature is registered only here, after the kernel ran: a panic inside NewPositionRange, or a position
+	// outside the file, is never attributed to it.
+	verifSig("C02-position-empty-value-not-in-source", !spelled)
+	verifAssert(len(got) > 0, "I1: the position list of a node is not empty")
 	if verifParam("mode") == 0 {
 		verifAssert(verifAnd(got[0].Line == line, got[0].FirstColumn == col), "a plain scalar's positions start at the node")
 	}
